@@ -34,6 +34,11 @@ func loadFunctions(c *core.Ctx, rule string) *fnTable {
 		c.Unknown(rule, "functions.FunctionMap", fm.Decl.Pos(), fmt.Sprintf("only %d descriptors extracted (76 expected)", len(descs)))
 		return nil
 	}
+	for _, d := range descs {
+		if d.Function != nil && len(d.Binds) > 0 {
+			setLitBinds(d.Function, d.Binds)
+		}
+	}
 	return &fnTable{descs: descs, fm: fm, info: fm.Info()}
 }
 
@@ -52,16 +57,22 @@ func (t *fnTable) argKinds(d *tables.Descriptor) (kinds []tables.TypeSet, arity 
 	if len(d.TypeFn.Type.Params.List) > 0 && len(d.TypeFn.Type.Params.List[0].Names) > 0 {
 		param = d.TypeFn.Type.Params.List[0].Names[0].Name
 	}
+	// A guard is an if statement whose body returns (_, false); its condition is a disjunction, and each
+	// disjunct `len(p) != N` or `p[k].TypeID != X` constrains the accepted arguments.
+	var disjuncts func(e ast.Expr) []ast.Expr
+	disjuncts = func(e ast.Expr) []ast.Expr {
+		e = core.Unparen(e)
+		if be, ok := e.(*ast.BinaryExpr); ok && be.Op == token.LOR {
+			return append(disjuncts(be.X), disjuncts(be.Y)...)
+		}
+		return []ast.Expr{e}
+	}
+	idxRe := regexp.MustCompile(`^` + regexp.QuoteMeta(param) + `\[(\d+)\]\.TypeID$`)
 	ast.Inspect(d.TypeFn.Body, func(n ast.Node) bool {
 		is, ok := n.(*ast.IfStmt)
 		if !ok {
 			return true
 		}
-		be, ok := core.Unparen(is.Cond).(*ast.BinaryExpr)
-		if !ok || be.Op != token.NEQ {
-			return true
-		}
-		// returns false?
 		retFalse := false
 		for _, st := range is.Body.List {
 			if rs, ok := st.(*ast.ReturnStmt); ok && len(rs.Results) == 2 && core.ExprStr(rs.Results[1]) == "false" {
@@ -71,18 +82,24 @@ func (t *fnTable) argKinds(d *tables.Descriptor) (kinds []tables.TypeSet, arity 
 		if !retFalse {
 			return true
 		}
-		l := core.ExprStr(be.X)
-		if l == "len("+param+")" {
-			if tv, ok := t.info.Types[be.Y]; ok && tv.Value != nil {
-				n, _ := constant.Int64Val(tv.Value)
-				arity = int(n)
+		for _, dj := range disjuncts(is.Cond) {
+			be, ok := dj.(*ast.BinaryExpr)
+			if !ok || be.Op != token.NEQ {
+				continue
 			}
-			return true
-		}
-		if m := regexp.MustCompile(`^` + regexp.QuoteMeta(param) + `\[(\d+)\]\.TypeID$`).FindStringSubmatch(l); m != nil {
-			k := int(m[1][0] - '0')
-			if sel, ok := core.Unparen(be.Y).(*ast.SelectorExpr); ok {
-				byIdx[k] = strings.TrimPrefix(sel.Sel.Name, "TypeID")
+			l := core.ExprStr(be.X)
+			if l == "len("+param+")" {
+				if tv, ok := t.info.Types[be.Y]; ok && tv.Value != nil {
+					n, _ := constant.Int64Val(tv.Value)
+					arity = int(n)
+				}
+				continue
+			}
+			if m := idxRe.FindStringSubmatch(l); m != nil {
+				k := int(m[1][0] - '0')
+				if sel, ok := core.Unparen(be.Y).(*ast.SelectorExpr); ok {
+					byIdx[k] = strings.TrimPrefix(sel.Sel.Name, "TypeID")
+				}
 			}
 		}
 		return true
